@@ -156,6 +156,9 @@ def h05(E, M, case):
     for i, ev in enumerate(evs):
         t = t + E.int("dt%d" % i, 0, 2**40)
         kind = ev[0]
+        # nothing shares a loop iteration with a connection loss that precedes it: the
+        # transport is gone, later events happen after its (deferred) handling
+        join = not (i > 0 and evs[i - 1][0] == "lost")
         if kind in ("offer", "stop", "rebootmsg"):
             a = ev[2] if kind != "rebootmsg" else ev[1]
             rb = ev[3] if kind != "rebootmsg" else 1
@@ -182,16 +185,16 @@ def h05(E, M, case):
                     last_inject[0] = len(glog)
                 prot.datagram_received(d, addr, False)
 
-            sc.at(t, cb, "ev%d" % i)
+            sc.at(t, cb, "ev%d" % i, joinable=join)
         elif kind == "lost":
             offers.clear()
             sc.at(t, lambda: prot.connection_lost(None), "ev%d" % i)
         elif kind == "watch":
-            sc.at(t, register(ev[1], i), "ev%d" % i)
+            sc.at(t, register(ev[1], i), "ev%d" % i, joinable=join)
         elif kind == "watch_all":
-            sc.at(t, register("all", i), "ev%d" % i)
+            sc.at(t, register("all", i), "ev%d" % i, joinable=join)
         elif kind == "unwatch":
-            sc.at(t, unregister(i), "ev%d" % i)
+            sc.at(t, unregister(i), "ev%d" % i, joinable=join)
     sc.flush()
     loop.settle()
 
